@@ -8,6 +8,7 @@ SimInit == Init /\ hist = <<>>
 Rec(a) == hist' = Append(hist, a)
 Ended == hist # <<>> /\ hist[Len(hist)] = "End"
 SimNext == \/ StartOK /\ Rec("Start")
+           \/ StartFail /\ Rec("StartBad")
            \/ StopCall /\ Rec("Stop")
            \/ StopWaited /\ Rec("StopWait")
            \/ HwSilence /\ Rec("Silence")
